@@ -149,12 +149,13 @@ type selCase struct {
 }
 
 type selDoc struct {
-	doc  Map
-	x, y float64
-	arr  []any
-	m    []any
-	s    string
-	tags []any
+	doc      Map
+	x, y     float64
+	arr      []any
+	m        []any
+	s        string
+	tags     []any
+	backings [][]any
 }
 
 func mkSelDoc() *selDoc {
@@ -171,6 +172,21 @@ func mkSelDoc() *selDoc {
 	}
 	d.m = []any{[]any{d.x}, []any{d.y, d.x}}
 	d.tags = []any{d.s, "k", d.s, "z", "k", "q"}
+	// arrays are windows of larger backing arrays with sentinel cells behind them
+	spare := func(a []any) []any {
+		b := make([]any, len(a), len(a)+2)
+		copy(b, a)
+		full := b[:len(a)+2]
+		full[len(a)], full[len(a)+1] = "sentinel", "sentinel"
+		d.backings = append(d.backings, full)
+		return b
+	}
+	d.arr = spare(d.arr)
+	d.tags = spare(d.tags)
+	for i := range d.m {
+		d.m[i] = spare(d.m[i].([]any))
+	}
+	d.m = spare(d.m)
 	d.doc = Map{
 		"tags": d.tags,
 		"a":    Map{"b": d.x, "c": d.s, "n": nil},
@@ -179,7 +195,7 @@ func mkSelDoc() *selDoc {
 		"k.k":  Map{"c": d.y},
 		"num":  "12.5",
 		"o":    Map{"p": Map{"q": d.x, "r": Map{"z": d.s}}, "w": d.y},
-		"mm":   []any{[]any{d.x, d.y, d.x}, []any{d.x, d.x, d.y}, []any{d.y, d.y, d.x}},
+		"mm":   spare([]any{spare([]any{d.x, d.y, d.x}), spare([]any{d.x, d.x, d.y}), spare([]any{d.y, d.y, d.x})}),
 	}
 	return d
 }
@@ -324,6 +340,13 @@ func H_C09_reader() {
 		}
 	}
 	verif.Assert(verif.Unchanged(snap, d.doc), "document-unchanged")
+	intact := true
+	for _, full := range d.backings {
+		if full[len(full)-1] != "sentinel" || full[len(full)-2] != "sentinel" {
+			intact = false
+		}
+	}
+	verif.Assert(intact, "spare-capacity-untouched")
 	verif.Reach("end")
 }
 
